@@ -167,6 +167,34 @@ theorem file_name_kept (visited : List String) (fuel : Nat) (n : String)
     disambFile visited (fuel + 1) n = n := by
   simp [disambFile, h1, h2]
 
+/-! ## A keyword-named file whose word is also a flattened parameter: the module is aliased -/
+
+/-- a proto file named by a keyword `k` becomes module `k_`; a method that flattens the top-level field `k` offers the parameter `k_`,
+which would shadow the module inside the method: the module IS imported under its alias in that method's context, whatever else the
+service names and the signatures hold -/
+theorem keyword_file_flattened_same_word_aliased (k : String) (hk : k ∈ Pinned.pyKeywords)
+    (svcNames : List String) (sigFields : List Path) (hsig : [k] ∈ sigFields) :
+    isAliased (methodCollisions svcNames sigFields) (disambFile [] 1 k) = true := by
+  have hfile : disambFile [] 1 k = k ++ "_" :=
+    (file_name_one_underscore [] 0 k (List.mem_append_left _ hk) (by simp)).1
+  have hres : isReserved k = true := isKeyword_imp_reserved k (List.contains_iff_mem.mpr hk)
+  have hkey : joinDots (flattenKey [k]) = k ++ "_" := by
+    simp [flattenKey, fieldAttr, hres, joinDots]
+  rw [hfile]
+  simp only [isAliased, methodCollisions, Bool.or_eq_true]
+  left
+  rw [List.contains_iff_mem, List.mem_append]
+  right
+  exact List.mem_map.mpr ⟨[k], hsig, hkey⟩
+
+example : "class" ∈ Pinned.pyKeywords ∧ ([["parent"], ["class"]] : List Path).contains ["class"] = true := by decide
+
+/-- why the KEYS (suffixed) and not the raw signature names must enter the set: with the raw name the module `class_` is not aliased -/
+theorem raw_signature_names_would_not_alias :
+    isAliased (["Library", "LibraryClient", "LibraryAsyncClient", "create_item"] ++ ["parent", "class"]) "class_" = false ∧
+    isAliased (methodCollisions ["Library", "LibraryClient", "LibraryAsyncClient", "create_item"] [["parent"], ["class"]]) "class_" = true := by
+  decide
+
 /-! ## `toSnakeCase` IS the code's current `to_snake_case` (translated by harness/pyfun2lean.py, re-bridged on every run) -/
 
 section Translated
